@@ -61,6 +61,20 @@ func (e *Engine) buildVCx(key string, con *Contract, excl map[string]bool) (res 
 	x := &Exec{E: e, C: c, Entry: State{}, Top: fn, TopCon: con, Assumed: map[string]bool{}, Inlined: map[string]bool{},
 		UsedCon: map[string]bool{}, autoExcl: excl, Active: e.Active, nonnil: map[string]bool{}, knownLen: map[string]int{}, Locals: map[string]string{}, refEpoch: map[string]string{}, unfolded: map[string]bool{}, goalSeq: map[string]int{}}
 	res.Ctx = c
+	if con != nil {
+		for name := range e.Epoch {
+			mention := func(s string) bool { return strings.Contains(s, name+"(") }
+			for _, cl := range con.Requires {
+				x.heapInv = x.heapInv || mention(cl.Expr)
+			}
+			for _, cl := range con.Ensures {
+				x.heapInv = x.heapInv || mention(cl.Expr)
+			}
+			for _, l := range con.Lets {
+				x.heapInv = x.heapInv || mention(l.Expr)
+			}
+		}
+	}
 	x.safetyTags = []string{"C08"}
 	if con != nil && len(con.SafetyTags) > 0 {
 		x.safetyTags = con.SafetyTags
